@@ -56,6 +56,16 @@ pub const SPECIAL: &[&str] = &[
     "SYST:ERR:NEXT?",
     "[SYSTem]:TeST:A",
     "TeST:A",
+    // siblings that stress the child lookup: equal short forms with different long forms,
+    // one mnemonic a prefix of another, underscore / digit / letter at the same position
+    "MEASure:A",
+    "MEASurement:Bb",
+    "TRIGger",
+    "TRIG_in",
+    "TRIG1",
+    "OUT",
+    "OUT_en?",
+    "OUTA?",
 ];
 
 pub const STD_VERSION: &str = "SYSTem:VERSion?";
